@@ -339,10 +339,28 @@ fn documented_panics(chk: &Check, n: &AtomicU64) {
     must_panic(chk, "system_real_time_message(SongSelect)", n, || StructuredShortMessage::system_real_time_message(ShortMessageType::SongSelect));
 }
 
+/// Discarding formatting sink (counts bytes): Debug output of a scanner is longer than any stack buffer
+/// worth having, and the point is only that producing it does not allocate.
+pub struct NullSink(pub usize);
+impl core::fmt::Write for NullSink {
+    fn write_str(&mut self, s: &str) -> core::fmt::Result {
+        self.0 += s.len();
+        Ok(())
+    }
+}
+
+/// `{:?}` and `{:#?}` of a value into the discarding sink.
+pub fn debug_format<T: core::fmt::Debug>(t: &T) -> usize {
+    let mut k = NullSink(0);
+    let _ = write!(k, "{:?}", t);
+    let _ = write!(k, "{:#?}", t);
+    k.0
+}
+
 /// Clock-free scanners over complete small histories: all sequences up to `depth` over a
 /// 14-action alphabet, by depth-first search on `Copy` values (allocation-free).
 fn scanner_histories(chk: &Check, calls: &AtomicU64, depth: usize) {
-    fn dfs14(sc: &ControlChange14BitMessageScanner, msgs: &[RawShortMessage; 10], depth: usize, n: &mut u64) {
+    fn dfs14(sc: &ControlChange14BitMessageScanner, msgs: &[RawShortMessage; 10], depth: usize, top: usize, n: &mut u64) {
         if depth == 0 {
             return;
         }
@@ -354,10 +372,15 @@ fn scanner_histories(chk: &Check, calls: &AtomicU64, depth: usize) {
                 s.reset();
             }
             *n += 1;
-            dfs14(&s, msgs, depth - 1, n);
+            if depth + 3 > top {
+                // Debug of a scanner with a sequence in progress (formatting must not allocate either):
+                // every state reachable by up to three actions
+                black_box(debug_format(&s));
+            }
+            dfs14(&s, msgs, depth - 1, top, n);
         }
     }
-    fn dfsn(sc: &ParameterNumberMessageScanner, msgs: &[RawShortMessage; 10], depth: usize, n: &mut u64) {
+    fn dfsn(sc: &ParameterNumberMessageScanner, msgs: &[RawShortMessage; 10], depth: usize, top: usize, n: &mut u64) {
         if depth == 0 {
             return;
         }
@@ -369,7 +392,10 @@ fn scanner_histories(chk: &Check, calls: &AtomicU64, depth: usize) {
                 s.reset();
             }
             *n += 1;
-            dfsn(&s, msgs, depth - 1, n);
+            if depth + 3 > top {
+                black_box(debug_format(&s));
+            }
+            dfsn(&s, msgs, depth - 1, top, n);
         }
     }
     let c = ch(11);
@@ -385,12 +411,12 @@ fn scanner_histories(chk: &Check, calls: &AtomicU64, depth: usize) {
     ];
     zone(chk, "scanner-histories/ControlChange14BitMessageScanner", calls, || {
         let mut n = 0;
-        dfs14(&ControlChange14BitMessageScanner::new(), &m14, depth, &mut n);
+        dfs14(&ControlChange14BitMessageScanner::new(), &m14, depth, depth, &mut n);
         n
     });
     zone(chk, "scanner-histories/ParameterNumberMessageScanner", calls, || {
         let mut n = 0;
-        dfsn(&ParameterNumberMessageScanner::new(), &mn, depth, &mut n);
+        dfsn(&ParameterNumberMessageScanner::new(), &mn, depth, depth, &mut n);
         n
     });
 }
